@@ -277,7 +277,10 @@ def run_part(prop, goprop, engine, gomaxprocs, tier, seed, budget, work, known_s
             # An observation that three fresh re-executions of the same scenario do not show again is not a verdict on
             # the code (and not trouble of the harness either): it is reported and recorded in the evidence, nothing more.
             log("UNCONFIRMED (no verdict): %s seen %d time(s), not shown again by re-executing its scenario [%s]: %s" % (sig, v["count"], rp, (v.get("detail") or "").split("\n")[0][:300]))
-            unconfirmed.append(dict(signature=sig, count=v["count"], detail=(v.get("detail") or "")[:500]))
+            dst = os.path.join(REPLAYS, "unconfirmed", os.path.basename(rp))
+            os.makedirs(os.path.dirname(dst), exist_ok=True)
+            shutil.copy(rp, dst)
+            unconfirmed.append(dict(signature=sig, count=v["count"], detail=(v.get("detail") or "")[:500], scenario_file=dst))
             continue
         if not ro.get("reproduced"):
             log("INFRASTRUCTURE FAILURE (exit 2): violation %s did not reproduce from its replay file %s in a fresh process" % (sig, rp))
